@@ -6,7 +6,7 @@ from mvlib import hexs
 def run(chk):
     thorough = chk.tier == "thorough"
     ok = chk.build_harness()
-    chk.translate(["ConvertTables"])
+    chk.translate(["ConvertTables", "TailTables"])
     if chk.lake_build(["MambaVerif.Props.C01", "mvdrv"]):
         chk.audit("MambaVerif.Props.C01")
         if thorough:
@@ -57,6 +57,7 @@ def run(chk):
         if i % 53 == 0 and a == 0:
             chk.sample({"program": p.text[:300], "prints": exp_lines[:6], "outcome": exp_outcome})
     range_model(chk)
+    tail_correspondence(chk, progs, res)
     chk.cov["oracle"] = {"spec": "CPython output of the emitted module (both annotate settings) == reference semantics of the generated tree (printed values, class of uncaught exception)",
                          "programs": len(progs), "rejected_by_checker": n_rej, "python_executions": n_exec, "stats": stats}
     chk.cov["evaluations"] = n_exec
@@ -87,6 +88,102 @@ class RangeProg:
             out.append(str(i))
             i += st
         return out + ["done"], "ok"
+
+
+def py_leaves(stmts, var):
+    """kinds of the statements in tail position of an emitted statement list, one per path, in source order"""
+    import ast
+    if not stmts:
+        return ["empty"]
+    last = stmts[-1]
+    if isinstance(last, ast.If):
+        return py_leaves(last.body, var) + py_leaves(last.orelse, var)
+    if isinstance(last, ast.Match):
+        return [k for c in last.cases for k in py_leaves(c.body, var)]
+    if isinstance(last, ast.Try):
+        return py_leaves(last.body, var) + [k for h in last.handlers for k in py_leaves(h.body, var)]
+    if isinstance(last, (ast.Assign, ast.AnnAssign)):
+        tgt = last.targets[0] if isinstance(last, ast.Assign) else last.target
+        return ["assign" if var is None or (isinstance(tgt, ast.Name) and tgt.id == var) else "assign-elsewhere"]
+    if isinstance(last, ast.Return):
+        return ["return"]
+    if isinstance(last, ast.Raise):
+        return ["raise"]
+    if isinstance(last, ast.Pass):
+        return ["empty"]
+    return ["expr"]
+
+
+def tail_correspondence(chk, progs, res):
+    """the Lean model of append_assign / append_ret (Model/Tail.lean) predicts, for every definition fed by a block tree and
+    every function body that ends in one, the kind of statement each path ends in; the emitted Python must show the same"""
+    import ast
+    reqs, impl = [], {}
+    for i, (p, r) in enumerate(zip(progs, res)):
+        if not hasattr(p, "items") or r[0][0] != "ok":
+            continue
+        try:
+            mod = ast.parse(r[0][1])
+        except SyntaxError:
+            continue
+        trees = []
+
+        def collect(stmts):
+            for st in stmts:
+                if isinstance(st, tuple) and st and st[0] == "blockdef":
+                    trees.append(("assign", st[1], st[3]))
+                if isinstance(st, tuple):
+                    for x in st[1:]:
+                        if isinstance(x, list):
+                            collect(x)
+        collect([x for k, x in p.items if k == "stmt"])
+        for f, d in p.funcs.items():
+            collect(d["body"])
+            if d.get("lasttree") is not None:
+                trees.append(("ret", f, d["lasttree"]))
+        for c, cd in p.classes.items():
+            for m, md in cd["methods"].items():
+                collect(md["body"])
+        for k, (which, name, tree) in enumerate(trees):
+            cid = "t%d_%d" % (i, k)
+            wire = gen_prog.tree_wire(tree)
+            if which == "ret":
+                fd = [n for n in ast.walk(mod) if isinstance(n, ast.FunctionDef) and n.name == name]
+                if not fd:
+                    continue
+                got = py_leaves(fd[0].body, None)
+                # the model sees the function body as a block that ends in the tree
+                reqs.append((cid, "ret B(%s)" % wire))
+            else:
+                # the statement that binds `name`: the outermost if/match one of whose paths assigns it
+                def assigns(n):
+                    return [x for x in ast.walk(n) if (isinstance(x, ast.Assign) and isinstance(x.targets[0], ast.Name) and x.targets[0].id == name)
+                            or (isinstance(x, ast.AnnAssign) and isinstance(x.target, ast.Name) and x.target.id == name and x.value is not None)]
+                total = len(assigns(mod))
+                cand, size = None, None
+                for n in ast.walk(mod):
+                    if isinstance(n, (ast.If, ast.Match)) and total and len(assigns(n)) == total:
+                        sz = sum(1 for _ in ast.walk(n))
+                        if size is None or sz < size:
+                            cand, size = n, sz
+                if cand is None:
+                    got = ["no-binding-statement"]
+                else:
+                    got = py_leaves([cand], name)
+                reqs.append((cid, "assign %s" % wire))
+            impl[cid] = (" ".join(got), p.text, name)
+    have_model = chk.proof_broken is None or chk.proof_broken[0] not in ("proof-build", "translator")
+    mod_out = chk.driver("tail", reqs) if (have_model and reqs) else {}
+    dis = 0
+    for cid, payload in reqs:
+        want = mod_out.get(cid)
+        got, text, name = impl[cid]
+        if want is not None and want != got:
+            dis += 1
+            if dis <= 3:
+                chk.broken("correspondence", "tail transformation of %s: the model predicts the paths end in [%s], the emitted Python shows [%s] for\n%s" % (name, want, got, text[:1500]))
+    chk.cov["correspondence_tail"] = {"model": "MV.appendAssign / appendRet / leaves (Model/Tail.lean) vs the last statement of every path of the emitted if/match/function body",
+                                      "evaluations": len(reqs) if mod_out else 0, "disagreements": dis}
 
 
 def hierarchy_programs(rng, n):
